@@ -3,6 +3,7 @@ package main
 import (
 	"fmt"
 	"go/ast"
+	"go/token"
 	"go/types"
 	"sort"
 	"strings"
@@ -29,9 +30,9 @@ func init() {
 
 func runC08(c *Ctx) {
 	c.Rule("R8.1", "E3", "an entry shadows the wildcard; success only after Match == true with a nil error", 3)
-	c.Rule("R8.2", "E2", "Password.Match case table", 5)
+	c.Rule("R8.2", "E2", "Password.Match case table and file codec", 8)
 	c.Rule("R8.3", "E2", "record/token are derived only under their conditions", 2)
-	c.Rule("R8.4", "sibling", "password tool and server agree on types, hash names and KDF entry points", 4)
+	c.Rule("R8.4", "sibling", "password tool and server agree on types, hash names, KDF entry points and the bytes hashed; no empty derived key", 6)
 	c.Rule("R8.5", "E4", "webClient.permissions is never an alias of shared storage", 8)
 	c.Rule("R8.6", "E3", "no insertion after a failed credential check", 1)
 	c08Shadow(c)
@@ -221,6 +222,106 @@ func c08Match(c *Ctx) {
 		c.Check(retConst(cc, "false", false), "R8.2", "unknown types are errors", cc.Pos(), "default returns false with an error", "an unknown password type can match or is silently accepted")
 	} else {
 		c.Bad("R8.2", "unknown types are errors", sw.Pos(), "no default case")
+	}
+	// "no password" must not turn into "the empty password" in the file codec
+	{
+		um := p.Func("group", "Password", "UnmarshalJSON")
+		mj := p.Func("group", "Password", "MarshalJSON")
+		fKey := p.Field("group", "Password", "Key")
+		if um == nil || mj == nil || fKey == nil {
+			c.Unknown("R8.2", "password codec", 0, "Password.UnmarshalJSON/MarshalJSON not found")
+		} else {
+			// the short (string) form is decoded only from something that is not JSON null
+			uff := p.Facts().Analyze(um)
+			okNull, nlit := true, 0
+			ast.Inspect(um.Body(), func(nd ast.Node) bool {
+				cl, ok := nd.(*ast.CompositeLit)
+				if !ok {
+					return true
+				}
+				plain := false
+				for _, e := range cl.Elts {
+					if kv, ok := e.(*ast.KeyValueExpr); ok && types.ExprString(kv.Key) == "Type" {
+						if v, ok := constString(um.Pkg.TypesInfo, kv.Value); ok && v == "plain" {
+							plain = true
+						}
+					}
+				}
+				if !plain {
+					return true
+				}
+				nlit++
+				var st *State
+				for n2 := ast.Node(cl); n2 != nil && st == nil; n2 = p.Parent(um.File, n2) {
+					st, _ = uff.At(n2)
+				}
+				found := false
+				if st != nil {
+					for _, f := range st.Facts() {
+						if f.Op == "eq" && !f.Pos && f.B != nil && (f.A.Name == "\"null\"" || f.B.Name == "\"null\"") {
+							found = true
+						}
+					}
+				}
+				if !found {
+					okNull = false
+				}
+				return true
+			})
+			c.Check(okNull && nlit > 0, "R8.2", "JSON null is no password, not the empty plain password", um.Pos(), "the plain short form is decoded only when the input is not null", "a password written as null (or a keyless record after one rewrite of the file) is decoded as the plain password \"\": the entry accepts the empty password")
+			// the short form is written only for a record that has a key
+			mff := p.Facts().Analyze(mj)
+			recv := mj.params(mj.Pkg.TypesInfo)[0]
+			okKey, nm := true, 0
+			ast.Inspect(mj.Body(), func(nd ast.Node) bool {
+				call, ok := nd.(*ast.CallExpr)
+				if !ok || len(call.Args) != 1 {
+					return true
+				}
+				sel, ok := unparen(call.Args[0]).(*ast.SelectorExpr)
+				if !ok {
+					return true
+				}
+				if sl := mj.Pkg.TypesInfo.Selections[sel]; sl == nil || sl.Obj() != types.Object(fKey) {
+					return true
+				}
+				nm++
+				st, _ := mff.At(call)
+				if st == nil || !st.HasFact(mkFact(false, "eq", TNil(), TField(TVar(recv), fKey))) {
+					okKey = false
+				}
+				return true
+			})
+			c.Check(okKey && nm > 0, "R8.2", "the short form is written only for a record that has a key", mj.Pos(), "json.Marshal(p.Key) under p.Key != nil", "a plain record without a key is written as null, which reads back as the empty password")
+		}
+	}
+	// an error never comes with a positive answer
+	{
+		info := fs.Pkg.TypesInfo
+		bad, nret := "", 0
+		ast.Inspect(fs.Body(), func(nd ast.Node) bool {
+			if _, isLit := nd.(*ast.FuncLit); isLit {
+				return false
+			}
+			ret, ok := nd.(*ast.ReturnStmt)
+			if !ok || len(ret.Results) != 2 {
+				return true
+			}
+			nret++
+			a, b := unparen(ret.Results[0]), unparen(ret.Results[1])
+			if isNilIdent(info, b) {
+				return true
+			}
+			if tv := info.Types[a]; tv.Value != nil && tv.Value.String() == "false" {
+				return true
+			}
+			if be, ok := a.(*ast.BinaryExpr); ok && be.Op == token.EQL && isNilIdent(info, be.Y) && types.ExprString(be.X) == types.ExprString(b) {
+				return true
+			}
+			bad = p.PosStr(ret.Pos())
+			return true
+		})
+		c.Check(bad == "" && nret > 5, "R8.2", "an error never comes with a match", fs.Pos(), fmt.Sprintf("%d returns: (x, nil), (false, err) or (err == nil, err)", nret), "Match can report a match together with an error (at "+bad+"): callers that only look at the boolean accept any password for a malformed record")
 	}
 	if cc := clauses["plain"]; cc != nil {
 		// compares only through ConstantTimeCompare: no == / bytes.Equal on the key in this clause
@@ -480,6 +581,88 @@ func c08Sibling(c *Ctx) {
 		return true
 	})
 	c.Check(okParams, "R8.4", "Match derives iteration count and key length from the stored record", mt.Pos(), "pbkdf2.Key(pw, salt, p.Iterations, len(key), h)", "iteration count or key length are not taken from the record: passwords hashed with other parameters never verify")
+
+	// both sides feed the whole password to the KDF: []byte(pw) of the parameter itself
+	wholePw := func(fs *FuncSrc) (int, string) {
+		info := fs.Pkg.TypesInfo
+		var pwObj types.Object
+		for _, po := range fs.params(info) {
+			if po != nil && po.Name() == "pw" {
+				pwObj = po
+			}
+		}
+		n, bad := 0, ""
+		ast.Inspect(fs.Body(), func(nd ast.Node) bool {
+			call, ok := nd.(*ast.CallExpr)
+			if !ok {
+				return true
+			}
+			f := calleeOf(&CallSite{Call: call, In: fs})
+			if f == nil || f.Pkg() == nil {
+				return true
+			}
+			idx := -1
+			switch {
+			case f.Pkg().Path() == "golang.org/x/crypto/pbkdf2" && f.Name() == "Key":
+				idx = 0
+			case f.Pkg().Path() == "golang.org/x/crypto/bcrypt" && f.Name() == "GenerateFromPassword":
+				idx = 0
+			case f.Pkg().Path() == "golang.org/x/crypto/bcrypt" && f.Name() == "CompareHashAndPassword":
+				idx = 1
+			case fnIs(f, "group", "", "ConstantTimeCompare"):
+				idx = -2
+			}
+			if idx == -1 {
+				return true
+			}
+			n++
+			okArg := false
+			if idx == -2 {
+				if id, ok := unparen(call.Args[0]).(*ast.Ident); ok && info.Uses[id] == pwObj {
+					okArg = true
+				}
+			} else if conv, ok := unparen(call.Args[idx]).(*ast.CallExpr); ok && len(conv.Args) == 1 {
+				if tv, isT := info.Types[conv.Fun]; isT && tv.IsType() {
+					if id, ok := unparen(conv.Args[0]).(*ast.Ident); ok && info.Uses[id] == pwObj && pwObj != nil {
+						okArg = true
+					}
+				}
+			}
+			if !okArg {
+				bad = p.PosStr(call.Pos())
+			}
+			return true
+		})
+		return n, bad
+	}
+	n1, b1 := wholePw(mk)
+	n2, b2 := wholePw(mt)
+	c.Check(n1 >= 2 && n2 >= 3 && b1 == "" && b2 == "", "R8.4", "tool and server hash the whole password", mk.Pos(), fmt.Sprintf("%d + %d KDF/compare calls all take []byte(pw) of the password parameter itself", n1, n2), "the bytes hashed or compared are not the whole password given (at "+b1+b2+"): a stored hash verifies for other passwords than the one it was made from")
+
+	// a derived key of length 0 equals every other derived key of length 0
+	okLenSrv := false
+	{
+		ff := p.Facts().Analyze(mt)
+		ast.Inspect(mt.Body(), func(nd ast.Node) bool {
+			call, ok := nd.(*ast.CallExpr)
+			if !ok || len(call.Args) != 2 {
+				return true
+			}
+			if f := calleeOf(&CallSite{Call: call, In: mt}); f == nil || f.Pkg() == nil || f.Pkg().Path() != "bytes" || f.Name() != "Equal" {
+				return true
+			}
+			st, _ := ff.At(call)
+			kt := ff.term(call.Args[0])
+			if st != nil && kt != nil {
+				l := TCall("len", nil, kt)
+				if st.HasFact(mkFact(false, "eq", TConst("0"), l)) || st.HasFact(mkFact(true, "lt", TConst("0"), l)) || impliesFact(stateIneqs(st), mkFact(true, "lt", TConst("0"), l), ff.nonNeg()) {
+					okLenSrv = true
+				}
+			}
+			return true
+		})
+	}
+	c.Check(okLenSrv, "R8.4", "Match never compares an empty derived key", mt.Pos(), "bytes.Equal(key, theirKey) only under len(key) > 0", "a pbkdf2 record with an empty key (which the tool writes for -key 0) compares equal to the empty key derived from ANY password: the entry accepts every password")
 }
 
 func c08Ownership(c *Ctx) {
